@@ -322,6 +322,9 @@ func runC14(c *config) {
 				return
 			}
 		}
+		if c14lReplay(o, rp) {
+			return
+		}
 		if gh, ok := rp.Detail["glob_history"].(string); ok {
 			h := c14gDec(gh)
 			with, _, dd, _ := c14gRun(h, true)
@@ -336,6 +339,7 @@ func runC14(c *config) {
 	c14Wide(c, newRng(c.seed, "c14wide"))
 	c14Share(c, newRng(c.seed, "c14share"))
 	c14Glob(c, newRng(c.seed, "c14glob"))
+	c14Loc(c, newRng(c.seed, "c14loc")) // c14loc.go: unnamed locals, sub-entity observers only
 	c14Consts(c, newRng(c.seed, "c14const"))
 	c14Metadata(c, newRng(c.seed, "c14md"))
 	for i := 0; i < 3000*c.scale; i++ {
